@@ -254,12 +254,66 @@ def _preparse_ok(text):
         sys.stderr = old
 
 
-def _classify_valid(r, bydesign=False):
+def _visibly_bound(src, name):
+    """CPython's own symbol tables decide whether `name` is "defined nowhere": True iff EVERY scope that reads the name
+    has a binding of it (assignment incl. walrus targets hoisted out of comprehensions, parameter, import, def/class)
+    in itself or in an enclosing function/module scope (class scopes are skipped, names declared global count only
+    when the module binds them).  A rejection "undeclared name not builtin" of such a name is not the deliberate one."""
+    import symtable
+    try:
+        top = symtable.symtable(src if isinstance(src, str) else src.decode('utf-8', 'replace'), '<c43>', 'exec')
+    except Exception:
+        return False
+
+    def binds(table, n):
+        try:
+            sym = table.lookup(n)
+        except KeyError:
+            return False
+        if sym.is_declared_global() and table.get_type() != 'module':
+            return False
+        return sym.is_assigned() or sym.is_parameter() or sym.is_imported() or sym.is_namespace()
+
+    readers = []
+
+    def walk(table, chain):
+        chain = chain + [table]
+        try:
+            sym = table.lookup(name)
+            if sym.is_referenced():
+                readers.append(chain)
+        except KeyError:
+            pass
+        for ch in table.get_children():
+            walk(ch, chain)
+    walk(top, [])
+    if not readers:
+        return False
+    for chain in readers:
+        own = chain[-1]
+        scopes = [own] + [t for t in reversed(chain[:-1]) if t.get_type() != 'class']
+        if own.get_type() != 'module':
+            try:
+                if own.lookup(name).is_declared_global():
+                    scopes = [chain[0]]
+            except KeyError:
+                pass
+        if not any(binds(t, name) for t in scopes):
+            return False
+    return True
+
+
+def _classify_valid(r, bydesign=False, src=None):
     """Result of a CPython-valid program -> (kind, key) or None when acceptable."""
     if r['status'] == 'ok':
         return None
     if r['status'] == 'errors':
         bad = [m for _, _, m in r['msgs'] if not any(a.search(m) for a in ALLOW)]
+        if not bad and src is not None:
+            # the allowlist covers names defined NOWHERE: a name CPython's symbol table binds in a visible scope is not one
+            for _, _, m in r['msgs']:
+                if ALLOW[0].search(m) and _visibly_bound(src, m.split(': ', 1)[1].strip()):
+                    return ('reject', 'undeclared name not builtin: _ (the name is bound in a visible scope)')
         if not bad:
             return ('allow', None)
         if bydesign and all(any(b.search(m) for b in BYDESIGN) for m in bad):
@@ -319,14 +373,15 @@ def run_job(job):
                 out['ok'] += st['ok']
                 out['helpers'] |= st['helpers']
                 out['outcomes']['valid:ok'] += st['ok']
+                texts = dict(valid + solo)
                 for pid, r in st['bad']:
-                    c = _classify_valid(r, bydesign=job['fam'].startswith('a5'))
+                    c = _classify_valid(r, bydesign=job['fam'].startswith('a5'), src=texts.get(pid))
                     if c is None:
                         out['ok'] += 1
                         out['outcomes']['valid:ok'] += 1
                     elif c[0] == 'allow':
                         out['allow'] += 1
-                        out['outcomes']['valid:allowlisted ' + _norm_msg(r['msgs'][0][2])] += 1
+                        out['outcomes']['valid:allowlisted ' + re.sub(r'_\d+', '_N', r['msgs'][0][2])[:90]] += 1
                     elif c[0] == 'bydesign':
                         out['bydesign'] += 1
                         out['outcomes']['valid:by-design static rejection ' + _norm_msg(r['msgs'][0][2])] += 1
@@ -377,13 +432,13 @@ def run_job(job):
                     out['gcc_dedup'] += 1
                 if v:
                     out['valid'] += 1
-                    c = _classify_valid(r)
+                    c = _classify_valid(r, src=data)
                     if c is None:
                         out['ok'] += 1
                         out['outcomes']['valid:ok'] += 1
                     elif c[0] == 'allow':
                         out['allow'] += 1
-                        out['outcomes']['valid:allowlisted ' + _norm_msg(r['msgs'][0][2])] += 1
+                        out['outcomes']['valid:allowlisted ' + re.sub(r'_\d+', '_N', r['msgs'][0][2])[:90]] += 1
                     else:
                         out['bad'].append((pid, c[0], c[1], r.get('text', '')))
                 else:
@@ -421,7 +476,7 @@ def build_jobs(tier):
 
     # (a)
     by_fam = collections.OrderedDict()
-    for fam, tag, ctxs, body in G.family_a(tier) + G.family_closure(tier):
+    for fam, tag, ctxs, body in G.family_a(tier) + G.family_closure(tier) + G.family_scope(tier):
         for c in ctxs:
             pid = len(programs)
             programs.append((fam, '[%s] %s' % (c, tag), '.py', G.wrap(c, pid, body)))
@@ -588,11 +643,11 @@ def replay(ctx, case):
         data = bytes.fromhex(case['hexsource'])
     else:
         data = case['source'].encode('utf-8', 'surrogatepass')
-    valid = case['ext'] == '.py' and _cpython_ok_safe(data, True)
+    valid = case['ext'] == '.py' and case.get('fam', 'a')[0] in 'ab' + ('c' if case.get('fam') == 'c-seed' else '') and _cpython_ok_safe(data, True)
     r = runner.forked(compile_one, 'replay', data, case['ext'], wd, cplus=case.get('cplus', False), timeout=600)
     if r.kind != 'ok':
         return 'compiler process %s %r' % (r.kind, r.value)
-    c = _classify_valid(r.value) if valid else _classify_invalid(r.value)
+    c = _classify_valid(r.value, bydesign=case.get('fam', '').startswith('a5'), src=data) if valid else _classify_invalid(r.value)
     if c is None or c[0] == 'allow':
         return False
     return '%s %s: %s' % (c[0], c[1], r.value.get('text', '')[-600:])
